@@ -229,8 +229,13 @@ func (x *executor) step(m *machine, fr *frame, in ssa.Instruction) {
 			x.val(m, fr, a)
 		}
 		x.note("go statement: the spawned goroutine (" + in.Call.Value.Name() + ") is not modelled; it is assumed not to write memory the function's contract speaks about")
-	case *ssa.Send, *ssa.Select:
-		panic(unsupported("concurrency instruction " + in.String() + " (function outside the verified subset)"))
+	case *ssa.Send:
+		// channels are opaque: a send delivers its value to some other goroutine, which is not modelled
+		x.val(m, fr, in.Chan)
+		x.val(m, fr, in.X)
+		x.note("channel operations are opaque: a send has no effect on the verified state, a receive (also in a select) yields an arbitrary value of the element type, which case of a select fires is arbitrary; blocking and deadlock are not modelled")
+	case *ssa.Select:
+		x.selectInstr(m, fr, in)
 	default:
 		panic(unsupported(fmt.Sprintf("instruction %T: %s", in, in.String())))
 	}
@@ -405,6 +410,17 @@ func (x *executor) unop(m *machine, fr *frame, in *ssa.UnOp) {
 	case token.XOR:
 		v := x.val(m, fr, in.X)
 		fr.env[in] = Val{t: c.bitnot(v.t, in.Type()), typ: in.Type()}
+	case token.ARROW:
+		// receive: an arbitrary value of the element type (channels are opaque)
+		x.val(m, fr, in.X)
+		et := in.X.Type().Underlying().(*types.Chan).Elem()
+		v := x.arbitrary(m, "recv", et)
+		if in.CommaOk {
+			fr.env[in] = Val{tup: []Val{v, {t: c.d.fresh("recvok", "Bool"), typ: types.Typ[types.Bool]}}}
+		} else {
+			fr.env[in] = v
+		}
+		x.note("channel operations are opaque: a send has no effect on the verified state, a receive (also in a select) yields an arbitrary value of the element type, which case of a select fires is arbitrary; blocking and deadlock are not modelled")
 	default:
 		panic(unsupported("unary op " + in.Op.String()))
 	}
@@ -948,3 +964,44 @@ func (x *executor) globalVal(st *state, o *types.Var) Val {
 }
 
 var _ = constant.MakeInt64
+
+// arbitrary: an unknown well-formed value of type t (function values: an opaque identity)
+func (x *executor) arbitrary(m *machine, name string, t types.Type) Val {
+	c := x.c
+	if _, isSig := t.Underlying().(*types.Signature); isSig {
+		return Val{t: c.d.fresh(name, "Int"), typ: t}
+	}
+	if st, ok := t.Underlying().(*types.Struct); ok && st.NumFields() == 0 {
+		return Val{t: c.zero(t), typ: t}
+	}
+	v := c.d.fresh(name, c.sortOf(t))
+	m.st.assume(x.valueWF(v, t))
+	return Val{t: v, typ: t}
+}
+
+// selectInstr: which case fires is arbitrary; received values are arbitrary (channels are opaque)
+func (x *executor) selectInstr(m *machine, fr *frame, in *ssa.Select) {
+	c := x.c
+	intT := types.Typ[types.Int]
+	for _, s := range in.States {
+		x.val(m, fr, s.Chan)
+		if s.Send != nil {
+			x.val(m, fr, s.Send)
+		}
+	}
+	idx := c.d.fresh("selidx", c.intSort())
+	lo := c.I(0)
+	if !in.Blocking {
+		lo = c.I(-1)
+	}
+	m.st.assume(mkAnd(c.cmp(token.LEQ, lo, idx, intT), c.cmp(token.LSS, idx, c.I(int64(len(in.States))), intT)))
+	tup := []Val{{t: idx, typ: intT}, {t: c.d.fresh("recvok", "Bool"), typ: types.Typ[types.Bool]}}
+	for _, s := range in.States {
+		if s.Dir == types.RecvOnly {
+			et := s.Chan.Type().Underlying().(*types.Chan).Elem()
+			tup = append(tup, x.arbitrary(m, "selrecv", et))
+		}
+	}
+	fr.env[in] = Val{tup: tup}
+	x.note("channel operations are opaque: a send has no effect on the verified state, a receive (also in a select) yields an arbitrary value of the element type, which case of a select fires is arbitrary; blocking and deadlock are not modelled")
+}
